@@ -5,6 +5,7 @@
   individual constraints, applied to a read of a data tree (`projTarget`, `projTargetList`).
 -/
 import YangVerif.Proofs.Query
+import YangVerif.Proofs.Window
 namespace YangVerif.C07
 open YangVerif.Query
 
@@ -111,6 +112,87 @@ theorem exact_iff (ps : List Path) (rel : Path) (hne : ps ≠ []) :
     altered or reordered -/
 theorem constrained_part_of_full (q : Query) (ks : List QS) (b : List QD) :
     SubBody ks (projTarget q ks b) (projTarget noQ ks b) := proj_sub_body q ks b false []
+
+/-! ### the text of a `fc.range` window (Model/Window.lean: NewListRange behind the `!`) -/
+
+section windowText
+open YangVerif.Window YangVerif.Path
+
+/-- **a window written as numbers is read as those numbers**: for every start row and end row a 64-bit
+    integer can hold, `start-end` is read as (start, end) -/
+theorem window_text_closed (s e : Nat) (hs : s < 2 ^ 63) (he : e < 2 ^ 63) :
+    parseRows (digits s ++ 45 :: digits e) = some (Int.ofNat s, Int.ofNat e) := by
+  unfold parseRows
+  have hj : digits s ++ 45 :: digits e = join 45 [digits s, digits e] := by simp [join]
+  rw [hj, splitOn_join 45 _ (by simp) (by
+    intro x hx; simp at hx; rcases hx with rfl | rfl <;> exact digits_no_dash _)]
+  have hne : (digits e).isEmpty = false := by
+    cases hd : digits e with
+    | nil => exact absurd hd (digits_spec e).2.2.1
+    | cons _ _ => rfl
+  simp [parseInt64_digits s hs, parseInt64_digits e he, hne]
+
+/-- `start-` and `start` alone are open-ended -/
+theorem window_text_open (s : Nat) (hs : s < 2 ^ 63) :
+    parseRows (digits s ++ [45]) = some (Int.ofNat s, -1) ∧ parseRows (digits s) = some (Int.ofNat s, -1) := by
+  constructor
+  · unfold parseRows
+    have hj : digits s ++ [45] = join 45 [digits s, []] := by simp [join]
+    rw [hj, splitOn_join 45 _ (by simp) (by
+      intro x hx; simp at hx; rcases hx with rfl | rfl
+      · exact digits_no_dash _
+      · simp)]
+    simp [parseInt64_digits s hs]
+  · unfold parseRows
+    have hj : digits s = join 45 [digits s] := by simp [join]
+    rw [hj, splitOn_join 45 _ (by simp) (by intro x hx; simp at hx; subst hx; exact digits_no_dash _)]
+    simp [parseInt64_digits s hs]
+
+/-- the whole parameter value `selector!start-end`, for every selector text without a `!` -/
+theorem range_text (sel : Text) (hsel : (33 : Nat) ∉ sel) (s e : Nat) (hs : s < 2 ^ 63) (he : e < 2 ^ 63) :
+    parseRange (sel ++ 33 :: (digits s ++ 45 :: digits e)) = some (sel, Int.ofNat s, Int.ofNat e) := by
+  unfold parseRange
+  have hsp : ∀ (a b : Text), (33 : Nat) ∉ a → splitFirst 33 (a ++ 33 :: b) = some (a, b) := by
+    intro a b ha
+    induction a with
+    | nil => simp [splitFirst]
+    | cons c r ih =>
+      have hc : c ≠ 33 := fun h => ha (by simp [h])
+      have hr : (33 : Nat) ∉ r := fun h => ha (List.mem_cons_of_mem _ h)
+      simp [splitFirst, hc, ih hr]
+  rw [hsp sel _ hsel]; simp only [window_text_closed s e hs he]; rfl
+
+/-- **what an accepted window lets through**: rows start..end, both included, in order; nothing when the
+    end lies before the start; everything from start on when there is no end -/
+theorem window_rows (s e : Nat) (rows : List α) :
+    rowsOf (Int.ofNat s) (Int.ofNat e) rows = if e < s then [] else (rows.drop s).take (e - s + 1) := by
+  unfold rowsOf
+  have h0 : ¬ ((s : Int) < 0) := by omega
+  have h1 : ¬ ((e : Int) = -1) := by omega
+  simp only [Int.ofNat_eq_natCast, h0, h1, if_false, Int.toNat_natCast]
+  by_cases h : e < s
+  · have h' : (e : Int) < (s : Int) := by omega
+    simp only [h, h', if_true]
+  · have h' : ¬ ((e : Int) < (s : Int)) := by omega
+    have hsub : ((e : Int) - (s : Int)).toNat = e - s := by omega
+    simp only [h, h', if_false, hsub]
+
+theorem window_rows_open (s : Nat) (rows : List α) : rowsOf (Int.ofNat s) (-1) rows = rows.drop s := by
+  unfold rowsOf
+  have h0 : ¬ ((s : Int) < 0) := by omega
+  simp only [Int.ofNat_eq_natCast, h0, if_false, Int.toNat_natCast, if_true]
+
+/-! tests of the reader on texts a request may carry, labelled as tests -/
+example : parseRows [49, 45, 50, 45, 51] = some (1, 2) := by decide            -- "1-2-3": what follows the end is not looked at
+example : parseRows [49, 45, 45, 51] = some (1, -1) := by decide               -- "1--3": an empty second piece is "no end"
+example : parseRows [45, 49, 45] = none := by decide                           -- "-1-": no start row
+example : parseRows [] = none ∧ parseRows [120] = none ∧ parseRows [43] = none := by decide
+example : parseRows [43, 52, 45, 43, 55] = some (4, 7) := by decide            -- "+4-+7"
+example : parseRows [48, 48, 55] = some (7, -1) := by decide                   -- "007"
+example : rowsOf 1 2 [10, 11, 12, 13] = [11, 12] ∧ rowsOf 3 1 [10, 11, 12, 13] = [] ∧ rowsOf 2 0 [10, 11, 12, 13] = [] ∧
+    rowsOf 0 0 [10, 11, 12, 13] = [10] ∧ rowsOf 2 (-1) [10, 11, 12, 13] = [12, 13] ∧ rowsOf 9 (-1) [10, 11] = [] := by decide
+
+end windowText
 
 /-! #### non-vacuity / the expressions the pinned tree got wrong -/
 example : parseExpr [.lp, .seg "a", .semi, .seg "b", .rp, .seg "c"] = some [["a", "c"], ["b", "c"]] := by decide
